@@ -7,7 +7,7 @@ from . import err as E
 LEVEL = ("Static error-discipline analysis of the worker closure, the controller closure, ChainProcess/Sampler methods and every "
          "storage backend method: every call returning Result<_, E> with a fault-carrying E is propagated (`?`, map_err/context, "
          "explicit Err arm whose payload reaches the closure's result) - never unwrapped, discarded or swallowed; wait_timeout/abort map "
-         "every error arm to an Err value. Decides the structural necessary condition; does not execute fault injections, and says "
+         "every error arm to an Err value; the same discipline holds on the whole draw path below Chain::draw / set_position (R5, shared with C05-R1), so an unrecoverable density error raised anywhere reaches the worker's `?`. Decides the structural necessary condition; does not execute fault injections, and says "
          "nothing about panics inside user densities or rayon.")
 EXPLANATION = ("ERR classification of every consumer of a fallible call result in the scope bodies (MIR def-use), with an explicit "
                "table of accepted non-propagating idioms (one reason each); HIR arm analysis of wait_timeout/abort.")
@@ -299,4 +299,8 @@ def run(F, R, config="all"):
     r3(F, R)
     from . import c14
     c14.record_path_panics(F, R, "C13-R4")
+    # the same error discipline on the draw path (shared with C05-R1): an unrecoverable density error raised anywhere below
+    # Chain::draw / set_position must reach the worker's `?`, otherwise the sampler reports success or panics
+    from . import c05
+    c05.r1(F, R, rid="C13-R5")
     R.assume("user-supplied Math/Model implementations may fail at any call; panics inside them are out of scope")
